@@ -53,8 +53,16 @@ def classify(obs, mn, err):
             nos = [f.lineno for f in tb if f.filename == mn + '.py']
             if nos:
                 line = text.split('\n')[nos[0] - 1]
-    if err.startswith('NameError') and re.match(r'\w+\.registerAugmentions\(', line.strip()):
-        return 'augments-forward-reference'
+    ma = re.match(r'(\w+)\.registerAugmentions\(', line.strip())
+    if err.startswith('NameError') and ma:
+        # the recorded defect: the augmented row has the larger OID (or is not a row of this module at all), so it is defined later
+        oids = {mibgen.jname(n): t.get('oid') for (m2, n), t in obs['gen'].truth.items() if m2 == mn}
+        base_oid = oids.get(ma.group(1))
+        mm = re.search(r'"%s",\s*"(\w+)"' % re.escape(mn), text[text.index(line):][:300]) if line in text else None
+        aug_oid = oids.get(mm.group(1)) if mm else None
+        if base_oid is None or aug_oid is None or list(base_oid) > list(aug_oid):
+            return 'augments-forward-reference'
+        return 'pysnmp-exec'
     kinds = {mibgen.jname(n): t['kind'] for (m2, n), t in obs['gen'].truth.items() if m2 == mn}
     m = re.match(r'class (\w+)\((.*)\):', line.strip())
     if m:
@@ -65,6 +73,28 @@ def classify(obs, mn, err):
                 and (kinds.get(bases[1]) == 'textualConvention' or bases[1] == 'DisplayString'):
             return 'tc-derived-from-tc'
     return 'pysnmp-exec'
+
+
+def spec_items(cls):
+    """[(combinator, [(constraint, args)...])] recorded for a class body's subtypeSpec"""
+    sp = cls.__dict__.get('subtypeSpec')
+    out = []
+    for it in getattr(sp, 'items', []) or []:
+        if isinstance(it, recbuilder.Rec):
+            out.append((type(it).__name__, [(type(a).__name__, list(a.rec_args)) for a in it.rec_args if isinstance(a, recbuilder.Rec)]))
+    return out
+
+
+def expected_spec(cons):
+    if not cons:
+        return []
+    if 'enumeration' in cons:
+        return [('ConstraintsUnion', [('SingleValueConstraint', sorted(cons['enumeration'].values()))])]
+    if 'range' in cons:
+        return [('ConstraintsUnion', [('ValueRangeConstraint', [r['min'], r['max']]) for r in cons['range']])]
+    if 'size' in cons:
+        return [('ConstraintsUnion', [('ValueSizeConstraint', [r['min'], r['max']]) for r in cons['size']])]
+    return []
 
 
 def check_set(ctx, obs):
@@ -111,6 +141,15 @@ def check_set(ctx, obs):
                 continue
             d = recbuilder.describe(obj)
             rec = doc.get(jn, {})
+            if kind in ('typeDecl', 'textualConvention') and isinstance(obj, type):
+                cons = (rec.get('type') or {}).get('constraints')
+                if 'bits' not in ((rec.get('type') or {})) and spec_items(obj) != expected_spec(cons):
+                    fail('constraints', '%s::%s: pysnmp class restricts with %r, the JSON document says %r' % (mn, name, spec_items(obj), cons))
+            if kind == 'objectType' and t.get('nodetype') in ('scalar', 'column') and len(obj.rec_args) > 1:
+                cons = (rec.get('syntax') or {}).get('constraints')
+                syn_cls = type(obj.rec_args[1])
+                if cons and 'bits' not in (rec.get('syntax') or {}) and spec_items(syn_cls) != expected_spec(cons):
+                    fail('constraints', '%s::%s: pysnmp syntax restricts with %r, the JSON document says %r' % (mn, name, spec_items(syn_cls), cons))
             if kind in ('typeDecl', 'textualConvention'):
                 if d['kind'] != 'class':
                     fail('type-class', '%s::%s is exported as %r, not as a class' % (mn, name, d))
